@@ -149,7 +149,9 @@ def run(shard, ctx):
                     t.add_bar(nb)
             level = rng.choice(["track", "track", "bar", "container"])
             steps = []
-            bound = 1       # upper bound on the accidentals any note can carry; beyond 6 the interval
+            want_twin = rng.random() < 0.3
+            bound = 3 if want_twin else 1       # (a twin bar is added already shifted by the first step: up to two more accidentals)
+            # bound: upper bound on the accidentals any note can carry; beyond 6 the interval
             #                 constructors re-spell enharmonically (documented), which is outside the statement
             for _ in range(rng.randint(1, 5)):
                 r = rng.random()
@@ -165,6 +167,18 @@ def run(shard, ctx):
                         break
                     bound += 1
                     steps.append(("augment",) if r < 0.8 else ("diminish",))
+            if steps and steps[0][0] == "transpose" and t.bars and want_twin:
+                # the first bar again, already shifted by the interval about to be applied (bars may resemble each other)
+                twin = Bar(t.bars[0].key, t.bars[0].meter)
+                for e in t.bars[0].bar:
+                    twin.place_notes(None if e[2] is None else NoteContainer([Note(n.name, n.octave, velocity=n.velocity, channel=n.channel)
+                                                                              for n in e[2].notes]), e[1])
+                twin.transpose(steps[0][1], steps[0][2])
+                t.add_bar(twin)
+                same = Bar(t.bars[0].key, t.bars[0].meter)
+                for e in t.bars[0].bar:
+                    same.place_notes(None if e[2] is None else NoteContainer([Note(n.name, n.octave) for n in e[2].notes]), e[1])
+                t.add_bar(same)
             start = MU.snap_track(t)
             ctx.state((tuple((b["key"], b["meter"], len(b["entries"])) for b in start)))
             for si, step in enumerate(steps):
